@@ -74,6 +74,7 @@ type Interp struct {
 	guardCells     map[*Value]*guardInfo
 	guardMaps      map[*Map]*guardInfo
 	guardHits      int
+	atomicFields   map[string]string // struct fields written through sync/atomic (when the lock monitor is active)
 }
 
 // guardInfo ties a piece of state to the mutex documented to protect it.
@@ -711,6 +712,36 @@ func (in *Interp) checkGuardInner(v Value, write bool) {
 	}
 }
 
+// checkPlainAccess: with the lock monitor active, a plain load or store of a
+// struct field that the repository also writes through sync/atomic (or of a
+// whole struct containing such a field) is a data race with that writer.
+func (in *Interp) checkPlainAccess(addr ssa.Value, write bool) {
+	kind := "read"
+	if write {
+		kind = "write"
+	}
+	if fa, ok := addr.(*ssa.FieldAddr); ok {
+		if where, hit := in.atomicFields[atomicFieldKey(fa.X.Type(), fa.Field)]; hit {
+			in.guardHits++
+			in.p.PathViolation(fmt.Sprintf("plain %s of a field that is written atomically elsewhere (%s) at %s", kind, where, in.where()))
+		}
+	}
+	pt, ok := addr.Type().Underlying().(*types.Pointer)
+	if !ok {
+		return
+	}
+	st, ok := pt.Elem().Underlying().(*types.Struct)
+	if !ok {
+		return
+	}
+	for i := 0; i < st.NumFields(); i++ {
+		if where, hit := in.atomicFields[fmt.Sprintf("%s#%d", pt.Elem().String(), i)]; hit {
+			in.guardHits++
+			in.p.PathViolation(fmt.Sprintf("plain %s of a whole %s, whose field %s is written atomically elsewhere (%s), at %s", kind, pt.Elem().String(), st.Field(i).Name(), where, in.where()))
+		}
+	}
+}
+
 func (in *Interp) checkGuardMap(m *Map, write bool) {
 	g := in.guardMaps[m]
 	if g == nil {
@@ -804,6 +835,9 @@ func (in *Interp) visitInstr(fr *frame, instr ssa.Instruction) continuation {
 	case *ssa.DebugRef:
 
 	case *ssa.UnOp:
+		if in.atomicFields != nil && instr.Op == token.MUL {
+			in.checkPlainAccess(instr.X, false)
+		}
 		fr.env[instr] = in.unop(fr, instr, fr.get(instr.X))
 
 	case *ssa.BinOp:
@@ -900,6 +934,9 @@ func (in *Interp) visitInstr(fr *frame, instr ssa.Instruction) continuation {
 		in.chanSend(ch, fr.get(instr.X))
 
 	case *ssa.Store:
+		if in.atomicFields != nil {
+			in.checkPlainAccess(instr.Addr, true)
+		}
 		in.storePtr(fr.get(instr.Addr), fr.get(instr.Val))
 
 	case *ssa.If:
